@@ -307,7 +307,15 @@ class CSectionFun(Contract):
             raise Raised(ExcObj(Exception, ("section cannot be decoded (C05)",)))
         ctx.assume(z3.And(blen_ >= 0, zint(o) + blen_ <= zint(field(stream, 'size'))))
         it.note_write(out, None, "out")
-        out[spec_section_name(sectionID)] = OpaqueVal(ufun('spec_section_value', z3.IntSort(), z3.IntSort(), Val)(zint(sectionID), zint(o)), 'val')
+        name = spec_section_name(sectionID)
+        if isinstance(name, Choice):
+            # when the path condition already fixes the name, store under the concrete key (so that code looking the entry
+            # up by its literal name finds it)
+            for c, v in name.alts:
+                if ctx.is_true(c):
+                    name = v
+                    break
+        out[name] = OpaqueVal(ufun('spec_section_value', z3.IntSort(), z3.IntSort(), Val)(zint(sectionID), zint(o)), 'val')
         stream.index = simp(zint(o) + blen_)
         return None
 
@@ -364,8 +372,19 @@ class GeneratePH(Unit):
             P.prove(ret is True, "succeeds when the section id is %s" % ("PH" if self.shard == 0 else "UH"))
             P.prove(list(js.keys()) == [name] and isinstance(js.get(name), dict), "adds exactly one entry named '%s'" % name)
             P.prove(Eq(field(inp['stream'], 'index'), o + (48 if self.shard == 0 else 24)), "consumes the 8-byte header and the fixed body")
+            b = o + 8
             if self.shard == 0:
                 P.prove(Eq(field(obj, 'sectionCount'), byte(d, o + 27)), "section count is byte 19 of the body")
+                # every attribute the callee contract (CGeneratePH) exposes to callers
+                P.prove(Eq(field(obj, 'creatorID'), ascii_text(d, b + 16, 1)), "creator id is the character at body offset 16")
+                P.prove(Eq(field(obj, 'obmcLogID'), be(d, b + 20, 4)), "BMC log id is the 32-bit word at body offset 20")
+                P.prove(Eq(field(obj, 'pLID'), cat("0x", fmt(be(d, b + 32, 4), 'X', 8, '0'))), "platform log id: 0x + 8 hex digits of the word at 32")
+                P.prove(Eq(field(obj, 'lEID'), cat("0x", fmt(be(d, b + 36, 4), 'X', 2, '0'))), "entry id: 0x + hex of the word at 36")
+                P.prove(Eq(field(obj, 'createTime'), spec_timestamp(d, b)), "create time: BCD timestamp at body offset 0")
+                P.prove(Eq(field(obj, 'commitTime'), spec_timestamp(d, b + 8)), "commit time: BCD timestamp at body offset 8")
+            else:
+                P.prove(Eq(field(obj, 'eventSeverity'), byte(d, b + 2)), "event severity is body byte 2")
+                P.prove(Eq(field(obj, 'actionFlags'), be(d, b + 10, 2)), "action flags are the 16-bit word at body offset 10")
         else:
             P.prove(ret is False and obj is None, "reports failure for any other section id")
             P.prove(len(js) == 0, "adds nothing for a wrong section id")
@@ -406,7 +425,7 @@ def build_output_enum(tier, seed):
                     replay=dict(kind='custom', reproduced=True, native=clash)))
     bad = None
     evals = 0
-    maxn = 7 if tier == 'quick' else 8
+    maxn = 9 if tier == 'quick' else 11
 
     def run(seq):
         secs = [OrderedDict([(n, ("value", i))]) for i, n in enumerate(seq)]
@@ -489,7 +508,7 @@ class CGeneratePH(Contract):
         b = o + 8
         ph = Obj(lookup_qualname(PT + "private_header.PrivateHeader"), dict(
             stream=stream, sectionCount=byte(d, b + 19), creatorID=ascii_text(d, b + 16, 1), obmcLogID=be(d, b + 20, 4),
-            pLID=cat("0x", fmt(be(d, b + 32, 4), 'X', 2, '0')), lEID=cat("0x", fmt(be(d, b + 36, 4), 'X', 2, '0')),
+            pLID=cat("0x", fmt(be(d, b + 32, 4), 'X', 8, '0')), lEID=cat("0x", fmt(be(d, b + 36, 4), 'X', 2, '0')),
             commitTime=spec_timestamp(d, b + 8), createTime=spec_timestamp(d, b), _pos=o))
         it.note_write(out, None, "out")
         out["Private Header"] = OpaqueVal(v_ph_json(o), 'val')
@@ -879,3 +898,131 @@ class ParsePELPrefixes(Unit):
 
 UNITS = UNITS + [ParsePELNative]
 C05_UNITS = C05_UNITS + [ParsePELPrefixes]
+
+
+# ------------------------------------------------------------------ parsePELSummary (the -l entry of one PEL) - C08
+def NOPS():
+    """NOPS(k): none of the optional sections 2..k-1 is a primary SRC"""
+    return z3.Function('pel_no_ps_before', z3.IntSort(), z3.BoolSort())
+
+
+class SummaryLoopInv(ParsePELInv):
+    """at the head of iteration k: the cursor is at section k, no primary SRC was met so far, the summary is still empty"""
+    func = PM + "parsePELSummary"
+    loop = 0
+    modifies_locals = ('_', 'sectionID', 'sectionLen', 'versionID', 'subType', 'componentID', 'section_json')
+
+    def heap_targets(self, it, fr):
+        return [(fr.locals['stream'], 'index'), fr.locals['summary']]
+
+    def base(self, it, fr):
+        ctx = it.ctx
+        if not ctx.ghost.get('pel_base'):
+            ctx.ghost['pel_base'] = True
+            SP, SJ = pel_fns()
+            ctx.assume(z3.And(SP(2) == zint(field(fr.locals['stream'], 'index')), NOPS()(2)))
+
+    def havoc(self, it, fr, k):
+        self.base(it, fr)
+        SP, SJ = pel_fns()
+        fr.locals['stream'].index = SP(zint(k))
+        fr.locals['summary'].clear()
+        d = field(fr.locals['stream'], 'data')
+        it.ctx.assume(ufun('pel_wf', z3.IntSort(), z3.BoolSort())(zint(k)) == wf_section(d, SP(zint(k)), SP(zint(k) + 1),
+                                                                                    field(fr.locals['stream'], 'size')))
+
+    def inv(self, it, fr, k):
+        self.base(it, fr)
+        SP, SJ = pel_fns()
+        s = fr.locals['stream']
+        return And(Eq(field(s, 'index'), SP(zint(k))), NOPS()(zint(k)), len(fr.locals['summary']) == 0,
+                   field(s, 'index') >= 0, field(s, 'index') <= field(s, 'size'))
+
+    def unfold(self, it, fr, k):
+        SP, SJ = pel_fns()
+        d = field(fr.locals['stream'], 'data')
+        p = SP(zint(k))
+        it.ctx.assume(SP(zint(k) + 1) == p + 8 + spec_body(d, p))
+        it.ctx.assume(NOPS()(zint(k) + 1) == z3.And(NOPS()(zint(k)), zint(sec_id(d, p)) != 0x5053))
+
+
+class ParsePELSummary(ParsePEL):
+    """the --list entry of one well-formed PEL: every field is the corresponding field of the full decode (same spec terms
+    as in the parsePEL unit: spec_ph_json / spec_uh_json / spec_section_value of the FIRST primary SRC section)"""
+    prop = "C08"
+    name = "parsePELSummary"
+    target = PM + "parsePELSummary"
+    contracts = [CGeneratePH, CGenerateUH, CConsiderPEL, CParseHeader, CSectionFun]
+    invariants = [SummaryLoopInv]
+
+    def inputs(self, S):
+        return dict(stream=mk_stream(S, index=0), config=S.obj(PT + "config.Config", allow_plugins=S.bool("allow_plugins")))
+
+    def pre(self, S, inp):
+        # shapes of the decoded documents, proved where they are produced: PrivateHeader.toJSON / UserHeader.toJSON key lists
+        # (C02 units PH, UH), SRC.toJSON always has 'Reference Code' and an 'Error Details' object always has 'Message'
+        # (C03 unit SrcToJSON)
+        from pyvc.seq import v_has, v_get
+        o = z3.Int('o!srcshape')
+        sv = ufun('spec_section_value', z3.IntSort(), z3.IntSort(), Val)(I(0x5053), o)
+        shapes = z3.And(v_has(v_ph_json(0), lit("Creator Subsystem")), v_has(v_ph_json(0), lit("Created by")),
+                        v_has(v_uh_json(48), lit("Subsystem")), v_has(v_uh_json(48), lit("Event Severity")),
+                        z3.ForAll([o], z3.And(v_has(sv, lit("Reference Code")),
+                                              z3.Implies(v_has(sv, lit("Error Details")),
+                                                         v_has(v_get(sv, lit("Error Details")), lit("Message")))), patterns=[sv]))
+        return And(ParsePEL.pre(self, S, inp), shapes)
+
+    def check(self, P, inp, old, out):
+        if not P.symbolic:
+            return
+        from pyvc.seq import v_has, v_get
+        ctx = P.ctx
+        s = inp['stream']
+        d = field(s, 'data')
+        SP, SJ = pel_fns()
+        lname = self.target + "#loop0"
+        P.prove(out.returned, "a well-formed PEL is summarised without error")
+        if not out.returned:
+            return
+        eid, summ = out.value
+        uh = Obj(None, dict(eventSeverity=byte(d, 58), actionFlags=be(d, 66, 2)))
+        if not branch(spec_selected(uh, inp['config'])):
+            P.prove(eid == "" and summ == "", "a PEL that is filtered out yields ('', '') - the same selection as count and display-all")
+            P.prove(Eq(field(s, 'index'), 72), "only the two headers were read")
+            return
+        P.prove(Eq(eid, cat("0x", fmt(be(d, 44, 4), 'X', 2, '0'))), "the key of the entry is the PH entry id as displayed by the full decode")
+        P.prove(isinstance(summ, dict), "the summary is a document")
+        if not isinstance(summ, dict):
+            return
+        ph, uhj = v_ph_json(0), v_uh_json(48)
+        from collections import OrderedDict
+        want = OrderedDict()
+        how = ctx.ghost.get(lname + '.exit')
+        k = ctx.ghost.get(lname + '.exit_index')
+        cnt = byte(d, 27)
+        n = If(cnt >= 2, cnt, 2)
+        if how == 'break-or-return':
+            p = SP(zint(k))
+            P.prove(And(NOPS()(zint(k)), Eq(sec_id(d, p), 0x5053), k >= 2, k < n),
+                    "the SRC shown is taken from the FIRST primary SRC section of the log")
+            src = spec_value(d, p)
+            want["SRC"] = OpaqueVal(v_get(src, lit("Reference Code")), 'val')
+            if branch(v_has(src, lit("Error Details"))):
+                want["Message"] = OpaqueVal(v_get(v_get(src, lit("Error Details")), lit("Message")), 'val')
+        else:
+            P.prove(And(NOPS()(zint(n)), Eq(k, n)), "no SRC entry only when none of the sections is a primary SRC")
+        want["PLID"] = cat("0x", fmt(be(d, 40, 4), 'X', 8, '0'))
+        want["CreatorID"] = OpaqueVal(v_get(ph, lit("Creator Subsystem")), 'val')
+        want["Subsystem"] = OpaqueVal(v_get(uhj, lit("Subsystem")), 'val')
+        want["Commit Time"] = spec_timestamp(d, 16)
+        want["Sev"] = OpaqueVal(v_get(uhj, lit("Event Severity")), 'val')
+        want["CompID"] = OpaqueVal(v_get(ph, lit("Created by")), 'val')
+        P.prove(list(summ.keys()) == list(want.keys()), "entry keys: SRC, (Message,) PLID, CreatorID, Subsystem, Commit Time, Sev, CompID")
+        for key in want:
+            if key in summ:
+                P.prove(val_term(summ[key]) == val_term(want[key]),
+                        "list entry field %r == the corresponding field of the full decode" % key)
+        P.prove(len(ctx.stdout) == 0, "summarising prints nothing on stdout")
+
+
+C08_UNITS = [ParsePELSummary]
